@@ -720,9 +720,23 @@ func (a *Adversary) twistedNV(h uint64) bool {
 	}
 	E := a.newBlock(h, a.r.Intn(3) == 0)
 	var m *interfaces.ConsensusRawMessage
-	variant := a.r.Intn(11)
+	variant := a.r.Intn(12)
 	lateVotes := false
 	switch {
+	case variant == 11 && lockHash != nil:
+		// the votes carry a proof, the NEW_VIEW re-proposes (hash and block matching) another block that was accepted earlier at this
+		// height — the one some members are still prepared on from a lower view
+		var olds []prop
+		for _, p := range a.proposals(h) {
+			if p.hash != string(lockHash) && p.blk != nil {
+				olds = append(olds, p)
+			}
+		}
+		if len(olds) == 0 {
+			return false
+		}
+		old := olds[a.r.Intn(len(olds))]
+		m = a.mkNV(leader, h, v, votes, []byte(old.hash), old.blk, v)
 	case variant == 9:
 		// genuine votes and header, but the embedded proposal carries somebody else's signature (it is outside the signed header)
 		hash, blk := spi.HashOf(E), E
